@@ -120,6 +120,20 @@ CLAIMED = {
              "spellings are known findings (D13b `_ ;; comment`, D13c `- α`).",
         technique="Lean 4 table theorems + respelling theorem on the word parser model + respelling search on impl",
         design="§4 C13"),
+    "C15": dict(
+        text="Proved over the runner model (abstract components): the romaniser list reaches `render` and nothing else, so a successful run with romanisers and the run "
+             "without them print the same structural result, and a failure of words or rules is the same failure (run_romanisers_only_render, run_romanisers_same_error). "
+             "Proved over the model of Word::render for the fragment in the property's quantifier (one plain segment, one matrix of binary features, or `$` on the left; "
+             "string, `+`string or `*` on the right): the printed syllable is the concatenation of one piece per segment; a segment no romaniser hits gets its default "
+             "piece, the first romaniser that hits replaces it (or suffixes the nearest base grapheme); with no romanisers the loop is the default renderer. Proved over the "
+             "deromaniser step of the word parser: a key at the cursor appends exactly the alias's segment and consumes exactly the key; elsewhere the parser is the plain one. "
+             "PARTIAL: the whole-word statement `encode(w) parses like w` has no theorem (it is false at grapheme boundaries where the typed IPA would fuse with its "
+             "neighbour, e.g. a key for `t` before a tie bar) and is decided by the c15-spec search, as are romanisers with modifiers and multi-segment inputs.",
+        note="Trusted: Lean kernel, standard axioms; alias-ops correspondence (model render/parse vs Word::render / Word::new through the verif hooks, 20k ops per quick run); "
+             "the reference romaniser in the harness. Defect D15b (`+` deromaniser after a long segment) repaired by a fix: commit; D15a (`+` romaniser drops the diacritics "
+             "of the segment it decorates) is a known finding.",
+        technique="Lean 4 runner theorem + renderer/parser step theorems on a hand model + correspondence + reference-romaniser search on impl",
+        design="§4 C15"),
     "C14": dict(
         text="Proved over the port of syll.rs, for any run length, position and syllable: a matrix naming no length/stress/tone leaves the syllable's stress, tone and segment count unchanged and reports no length change, and touches no segment outside the run; apply_syll_mods (stress/tone setting) never touches a segment; joining and splitting syllables keep every segment in order. PARTIAL: the whole-rule statements with arbitrary environments are decided by c14-spec and the correspondence.",
         note='Trusted: Lean kernel, standard axioms (+ bv_decide certificates where the bit layer is used); the hand port of subrule.rs/rule.rs/syll.rs (Model/Interp), tied to the code on every run by the interp-ops correspondence (identical outcome class and word on ~27k generated cases quick / 400k thorough, release profile); generators and labels of the search.',
